@@ -314,15 +314,44 @@ pub fn write_evidence(cfg: &RunCfg, stats: &Stats, info: &EvidenceInfo, wall_s: 
     }
 }
 
-/// Known-findings file: entries {property, status: known|fixed, signature, what, commit?}.
-pub fn known_findings(id: &str) -> Vec<Value> {
-    let path = verif_root().join("known_findings.json");
+/// Known-findings file (KNOWN_FINDINGS.txt): lines `known: property=<id> signature=<sig> <what>`
+/// and `fixed: property=<id> <commit> <what>`. Only `known:` lines suppress anything, and only the
+/// exact signature they name. Never written at run time.
+pub fn known_findings(id: &str) -> Vec<(String, String)> {
+    let path = crate::special::verif_root_static().join("KNOWN_FINDINGS.txt");
     let text = match std::fs::read_to_string(&path) {
         Ok(t) => t,
         Err(_) => return vec![],
     };
-    let v: Value = serde_json::from_str(&text).unwrap_or(Value::Null);
-    v["findings"].as_array().map(|a| a.iter().filter(|f| f["property"] == id && f["status"] == "known").cloned().collect()).unwrap_or_default()
+    let mut out = vec![];
+    for l in text.lines() {
+        let l = l.trim();
+        if let Some(rest) = l.strip_prefix("known:") {
+            let rest = rest.trim();
+            if let Some(r2) = rest.strip_prefix(&format!("property={} ", id)) {
+                if let Some(r3) = r2.trim().strip_prefix("signature=") {
+                    let (sig, what) = match r3.find(' ') {
+                        Some(i) => (r3[..i].to_string(), r3[i + 1..].to_string()),
+                        None => (r3.to_string(), String::new()),
+                    };
+                    out.push((sig, what));
+                }
+            }
+        }
+    }
+    out
+}
+
+/// Exact signature of a violation: clause + minimal input (hex of a 64-bit fingerprint of the
+/// replay's input fields), so a different violation of the same property is still reported.
+pub fn violation_signature(replay: &Value) -> String {
+    let mut input = String::new();
+    for k in ["start", "actions", "branch", "text", "bits", "case", "step", "status_idx"] {
+        if let Some(v) = replay.get(k) {
+            input.push_str(&v.to_string());
+        }
+    }
+    format!("{}@{:016x}", replay["clause"].as_str().unwrap_or("?"), fp_str(&input))
 }
 
 pub fn timer() -> Instant {
